@@ -9,7 +9,7 @@ from ..engine import Fail, Stratum
 from .. import exact as X, bridge as B, genbody as GB, permcase as PC, admit as A
 
 ID = "C09"
-USE_WITNESS = True
+WITNESS = ("eps", "round")
 RULE = (
     "convex polygons (3-8 lattice vertices, arbitrary pose) given as an arbitrary vertex sequence with repeats "
     "(ALL permutations for <= 5 vertices inside each case) and closed convex polyhedra (7 families, 4-10 "
